@@ -213,4 +213,31 @@ def scanTail (i : ScanIn) : ScanOut :=
     panics := decide (fe.1.length ≥ 2) && fe.1.any fun f => (sortKey f).isNone   -- unreachable: `C20_no_sort_panic`
     calls := r.calls }
 
+/-! ### head of `Scan`: the precondition chain -/
+
+/-- why `Scan` stops before running anything -/
+inductive PreErr
+  | enable          -- EnableRequiredExtractors: a required extractor is in neither list.go
+  | invalid         -- ValidatePluginRequirements: some plugin's requirements are not met by the capabilities
+  | noRoot          -- errNoScanRoot
+  | severalRoots    -- errFilesWithSeveralRoots
+deriving DecidableEq, Repr
+
+/-- `if err := config.EnableRequiredExtractors(); err != nil {…} else if err := config.ValidatePluginRequirements(); err != nil {…}
+else if len(config.ScanRoots) == 0 {…} else if len(config.PathsToExtract) > 0 && len(config.ScanRoots) > 1 {…}`; the outcomes of
+the two calls (C19's subject) are inputs here -/
+def preCheck (enableOK validOK : Bool) (nroots : Nat) (paths : Bool) : Option PreErr :=
+  if !enableOK then some .enable
+  else if !validOK then some .invalid
+  else if nroots = 0 then some .noRoot
+  else if paths && decide (nroots > 1) then some .severalRoots
+  else none
+
+/-- `Scan`: `if sro.Err != nil { sro.EndTime = time.Now(); return newScanResult(sro) }` — with a failed precondition the result is
+built at once from an `sro` that holds nothing but the error: no extractor and no detector has run; otherwise the three phases run -/
+def scanHead (pre : Option PreErr) (i : ScanIn) : Except PreErr ScanOut :=
+  match pre with
+  | some e => .error e
+  | none => .ok (scanTail i)
+
 end Scalibr.Detector
